@@ -441,6 +441,8 @@ def run(chk):
         mod = chk.repo.mod(mn)
         for scope, nm in unresolved_globals(mod, chk.repo):
             chk.note(f"{mod.rel}: name {nm!r} loaded in {scope} is bound nowhere (dead helper; not on the CSV path)")
+    from .. import merge as _merge
+    chk.guard(_merge.apply, chk, "C19-R5", ["irispie.sequentials._simulate", "irispie.simultaneous._simulate", "irispie.fords.std_simulators", "irispie.red_vars._estimators"])
     from .. import unused as _unused
     chk.guard(_unused.apply, chk, "C19-R91")
     from .. import args as _args
